@@ -1262,8 +1262,16 @@ class Spec:
         evaluations = 0
         distinct = set()
         samples = []
+        known_cache = {}
         for name, items in streams.items():
-            if len(failures) > 30:
+            # stop early only on failures that are not a registered known finding (those must not hide the
+            # coverage of the remaining streams)
+            fresh = 0
+            for f in failures:
+                if f.signature not in known_cache:
+                    known_cache[f.signature] = f.concrete() and vlib.known_match(ctx.pid, f.signature) is not None
+                fresh += not known_cache[f.signature]
+            if fresh > 30:
                 break
             lines = [l for l, _ in items]
             keep = list(range(len(lines)))
@@ -1327,6 +1335,7 @@ class Spec:
                "corruption": {k: stats[k] for k in ("corruptions", "corrupt_rejected", "corrupt_changed_field", "corrupt_unchanged")}
                | {"corrupt_still_in_grammar_judged_by_reference": stats.get("corrupt_still_in_grammar", 0)},
                "header_lists": hstats, "layout": lstats,
+               "cases_matching_a_registered_known_finding": sum(1 for f in failures if known_cache.get(f.signature)),
                "str_len_read": {"in_grammar_strings_rejected_because_str[str_len]_was_semicolon": stats.get("f5b_nonnul_terminator_rejects_in_grammar", 0),
                                 "exact_buffer_cases_without_read": stats["term_none_no_read"],
                                 "model_fault_confirmed_by_asan": stats["term_none_asan_confirmed"]},
